@@ -216,7 +216,9 @@ func runC10(c *harness.Ctx, idx int) {
 		c.Tag("skipped:reference-rejects")
 		return
 	}
+	setPoison(idx%2 == 1) // pool sanitizer in every other case
 	dr := fDecode(msg, act.Interface())
+	setPoison(false)
 	if dr.panicked() || dr.err != nil {
 		c.Violation("decode-failed", "C10/decode-failed/"+sig, "DecodeObject failed on a well-formed message: err=%v panic=%v", dr.err, dr.pv)
 		return
